@@ -1,7 +1,7 @@
 /-
-  Lemmas/LoopsProgress.lean — progress of the INTENDED receive loop (`Cfg.requeue = false`):
-  unrelated frames cost one unit of the inner budget each, bare acknowledgements cost nothing,
-  a time-out costs one unit of the outer budget and resets the inner one; `_q` stays empty.
+  Lemmas/LoopsProgress.lean — progress of the REPAIRED receive loop (`Cfg.requeue = false`, `cmdOnly = false`):
+  unrelated frames cost one unit of the inner budget each, bare acknowledgements of the transaction in
+  hand cost nothing, a time-out costs one unit of the outer budget and resets the inner one; `_q` stays empty.
 -/
 import PyIpmi.Lemmas.Loops
 namespace PyIpmi.Loops
@@ -10,28 +10,29 @@ open PyIpmi PyIpmi.Spec.Attribution
 /-- How the loop body treats one socket event while `_q` is empty:
 `some true` = filtered and rejected (counts), `some false` = bare acknowledgement (free),
 `none` = anything else (time-out, exception, accepted reply). -/
-def evKind (cfg : Cfg) (h : Hdr) (ev : RxEvent) : Option Bool :=
+def evKind (cfg : Cfg) (bridge : Option Hdr) (h : Hdr) (ev : RxEvent) : Option Bool :=
   match recvIpmi cfg ev with
   | .got f =>
-    match classify cfg.checkSeq h f with
+    match classify cfg.cmdOnly cfg.checkSeq bridge h f with
     | .noise _ => some true
     | .ack => some false
     | _ => none
   | _ => none
 
-def Benign (cfg : Cfg) (h : Hdr) (l : List RxEvent) : Prop := ∀ e ∈ l, (evKind cfg h e).isSome = true
+def Benign (cfg : Cfg) (bridge : Option Hdr) (h : Hdr) (l : List RxEvent) : Prop :=
+  ∀ e ∈ l, (evKind cfg bridge h e).isSome = true
 
-def noiseCount (cfg : Cfg) (h : Hdr) : List RxEvent → Nat
+def noiseCount (cfg : Cfg) (bridge : Option Hdr) (h : Hdr) : List RxEvent → Nat
   | [] => 0
-  | e :: l => (if evKind cfg h e = some true then 1 else 0) + noiseCount cfg h l
+  | e :: l => (if evKind cfg bridge h e = some true then 1 else 0) + noiseCount cfg bridge h l
 
 /-- The event is a datagram whose (possibly embedded) content passes the filter. -/
-def IsHit (cfg : Cfg) (h : Hdr) (ev : RxEvent) (g : Frame) : Prop :=
-  ∃ f, recvIpmi cfg ev = .got f ∧ classify cfg.checkSeq h f = .hit g
+def IsHit (cfg : Cfg) (bridge : Option Hdr) (h : Hdr) (ev : RxEvent) (g : Frame) : Prop :=
+  ∃ f, recvIpmi cfg ev = .got f ∧ classify cfg.cmdOnly cfg.checkSeq bridge h f = .hit g
 
-theorem inner_cons_free (cfg : Cfg) (h : Hdr) (b : Nat) (e : RxEvent) (X : List RxEvent)
-    (hk : evKind cfg h e = some false) :
-    inner cfg h (b + 1) [] (e :: X) = inner cfg h (b + 1) [] X := by
+theorem inner_cons_free (cfg : Cfg) (bridge : Option Hdr) (h : Hdr) (b : Nat) (e : RxEvent) (X : List RxEvent)
+    (hk : evKind cfg bridge h e = some false) :
+    inner cfg bridge h (b + 1) [] (e :: X) = inner cfg bridge h (b + 1) [] X := by
   unfold evKind at hk
   split at hk
   · rename_i f hr
@@ -42,9 +43,9 @@ theorem inner_cons_free (cfg : Cfg) (h : Hdr) (b : Nat) (e : RxEvent) (X : List 
     · cases hk
   · cases hk
 
-theorem inner_cons_noise (cfg : Cfg) (hq : cfg.requeue = false) (h : Hdr) (b : Nat) (e : RxEvent)
-    (X : List RxEvent) (hk : evKind cfg h e = some true) :
-    inner cfg h (b + 1) [] (e :: X) = inner cfg h b [] X := by
+theorem inner_cons_noise (cfg : Cfg) (hq : cfg.requeue = false) (bridge : Option Hdr) (h : Hdr) (b : Nat)
+    (e : RxEvent) (X : List RxEvent) (hk : evKind cfg bridge h e = some true) :
+    inner cfg bridge h (b + 1) [] (e :: X) = inner cfg bridge h b [] X := by
   unfold evKind at hk
   split at hk
   · rename_i f hr
@@ -55,104 +56,107 @@ theorem inner_cons_noise (cfg : Cfg) (hq : cfg.requeue = false) (h : Hdr) (b : N
     · cases hk
   · cases hk
 
-theorem inner_benign (cfg : Cfg) (hq : cfg.requeue = false) (h : Hdr) (pre : List RxEvent) (b : Nat)
-    (X : List RxEvent) (hb : Benign cfg h pre) (hc : noiseCount cfg h pre < b) :
-    inner cfg h b [] (pre ++ X) = inner cfg h (b - noiseCount cfg h pre) [] X := by
+theorem inner_benign (cfg : Cfg) (hq : cfg.requeue = false) (bridge : Option Hdr) (h : Hdr) (pre : List RxEvent)
+    (b : Nat) (X : List RxEvent) (hb : Benign cfg bridge h pre) (hc : noiseCount cfg bridge h pre < b) :
+    inner cfg bridge h b [] (pre ++ X) = inner cfg bridge h (b - noiseCount cfg bridge h pre) [] X := by
   induction pre generalizing b with
   | nil => simp [noiseCount]
   | cons e pre ih =>
-    have hbt : Benign cfg h pre := fun x hx => hb x (List.mem_cons_of_mem _ hx)
+    have hbt : Benign cfg bridge h pre := fun x hx => hb x (List.mem_cons_of_mem _ hx)
     have he := hb e List.mem_cons_self
     simp only [noiseCount] at hc ⊢
     cases b with
     | zero => omega
     | succ b =>
-      cases hk : evKind cfg h e with
+      cases hk : evKind cfg bridge h e with
       | none => simp [hk] at he
       | some k =>
         cases k with
         | false =>
           simp only [List.cons_append, hk] at hc ⊢
-          rw [inner_cons_free cfg h b e _ hk, ih (b + 1) hbt (by simpa using hc)]
+          rw [inner_cons_free cfg bridge h b e _ hk, ih (b + 1) hbt (by simpa using hc)]
           simp
         | true =>
           simp only [List.cons_append, hk, if_true] at hc ⊢
-          rw [inner_cons_noise cfg hq h b e _ hk, ih b hbt (by omega)]
+          rw [inner_cons_noise cfg hq bridge h b e _ hk, ih b hbt (by omega)]
           congr 1
           omega
 
-theorem inner_hit (cfg : Cfg) (h : Hdr) (b : Nat) (e : RxEvent) (g : Frame) (X : List RxEvent)
-    (hh : IsHit cfg h e g) : inner cfg h (b + 1) [] (e :: X) = .done g [] X := by
+theorem inner_hit (cfg : Cfg) (bridge : Option Hdr) (h : Hdr) (b : Nat) (e : RxEvent) (g : Frame) (X : List RxEvent)
+    (hh : IsHit cfg bridge h e g) : inner cfg bridge h (b + 1) [] (e :: X) = .done g [] X := by
   obtain ⟨f, hr, hc⟩ := hh
   simp [inner, nextQ, nextSock, hr, hc]
 
-theorem inner_timeout (cfg : Cfg) (h : Hdr) (b : Nat) (X : List RxEvent) :
-    inner cfg h (b + 1) [] (.timeout :: X) = .timeout X := by
+theorem inner_timeout (cfg : Cfg) (bridge : Option Hdr) (h : Hdr) (b : Nat) (X : List RxEvent) :
+    inner cfg bridge h (b + 1) [] (.timeout :: X) = .timeout X := by
   simp [inner, nextQ, nextSock, recvIpmi]
 
 theorem innerBudget_eq (cfg : Cfg) : innerBudget cfg = cfg.maxRetries + 1 := rfl
 theorem outerBudget_eq (cfg : Cfg) : outerBudget cfg = cfg.maxRetries + 1 := rfl
 
 /-- One round of the outer loop that ends in a time-out. -/
-theorem outer_seg_timeout (cfg : Cfg) (hq : cfg.requeue = false) (h : Hdr) (r : Nat) (seg X : List RxEvent)
-    (n : Nat) (hb : Benign cfg h seg) (hc : noiseCount cfg h seg ≤ cfg.maxRetries) :
-    outer cfg h (r + 1) [] (seg ++ .timeout :: X) n = outer cfg h r [] X (n + 1) := by
+theorem outer_seg_timeout (cfg : Cfg) (hq : cfg.requeue = false) (bridge : Option Hdr) (h : Hdr) (r : Nat)
+    (seg X : List RxEvent) (n : Nat) (hb : Benign cfg bridge h seg)
+    (hc : noiseCount cfg bridge h seg ≤ cfg.maxRetries) :
+    outer cfg bridge h (r + 1) [] (seg ++ .timeout :: X) n = outer cfg bridge h r [] X (n + 1) := by
   simp only [outer]
-  rw [inner_benign cfg hq h seg _ _ hb (by rw [innerBudget_eq]; omega)]
-  have : innerBudget cfg - noiseCount cfg h seg = (cfg.maxRetries - noiseCount cfg h seg) + 1 := by
+  rw [inner_benign cfg hq bridge h seg _ _ hb (by rw [innerBudget_eq]; omega)]
+  have : innerBudget cfg - noiseCount cfg bridge h seg = (cfg.maxRetries - noiseCount cfg bridge h seg) + 1 := by
     rw [innerBudget_eq]; omega
   rw [this, inner_timeout]
 
 /-- The round of the outer loop in which the reply arrives. -/
-theorem outer_seg_hit (cfg : Cfg) (hq : cfg.requeue = false) (h : Hdr) (r : Nat) (seg : List RxEvent)
-    (e : RxEvent) (g : Frame) (X : List RxEvent) (n : Nat) (hb : Benign cfg h seg)
-    (hc : noiseCount cfg h seg ≤ cfg.maxRetries) (hh : IsHit cfg h e g) :
-    outer cfg h (r + 1) [] (seg ++ e :: X) n =
+theorem outer_seg_hit (cfg : Cfg) (hq : cfg.requeue = false) (bridge : Option Hdr) (h : Hdr) (r : Nat)
+    (seg : List RxEvent) (e : RxEvent) (g : Frame) (X : List RxEvent) (n : Nat) (hb : Benign cfg bridge h seg)
+    (hc : noiseCount cfg bridge h seg ≤ cfg.maxRetries) (hh : IsHit cfg bridge h e g) :
+    outer cfg bridge h (r + 1) [] (seg ++ e :: X) n =
       ⟨.ok (pySlice Gen.Loops04.rmcpDataLo Gen.Loops04.rmcpDataHi g), [], X, n + 1⟩ := by
   simp only [outer]
-  rw [inner_benign cfg hq h seg _ _ hb (by rw [innerBudget_eq]; omega)]
-  have : innerBudget cfg - noiseCount cfg h seg = (cfg.maxRetries - noiseCount cfg h seg) + 1 := by
+  rw [inner_benign cfg hq bridge h seg _ _ hb (by rw [innerBudget_eq]; omega)]
+  have : innerBudget cfg - noiseCount cfg bridge h seg = (cfg.maxRetries - noiseCount cfg bridge h seg) + 1 := by
     rw [innerBudget_eq]; omega
-  rw [this, inner_hit cfg h _ e g X hh]
+  rw [this, inner_hit cfg bridge h _ e g X hh]
 
 /-- Events of rounds that each end in a time-out. -/
 def timedOutRounds : List (List RxEvent) → List RxEvent
   | [] => []
   | s :: ss => s ++ .timeout :: timedOutRounds ss
 
-theorem outer_rounds (cfg : Cfg) (hq : cfg.requeue = false) (h : Hdr) (segs : List (List RxEvent)) (r : Nat)
+theorem outer_rounds (cfg : Cfg) (hq : cfg.requeue = false) (bridge : Option Hdr) (h : Hdr)
+    (segs : List (List RxEvent)) (r : Nat)
     (last : List RxEvent) (e : RxEvent) (g : Frame) (X : List RxEvent) (n : Nat)
     (hr : segs.length < r)
-    (hs : ∀ s ∈ segs, Benign cfg h s ∧ noiseCount cfg h s ≤ cfg.maxRetries)
-    (hb : Benign cfg h last) (hc : noiseCount cfg h last ≤ cfg.maxRetries) (hh : IsHit cfg h e g) :
-    outer cfg h r [] (timedOutRounds segs ++ (last ++ e :: X)) n =
+    (hs : ∀ s ∈ segs, Benign cfg bridge h s ∧ noiseCount cfg bridge h s ≤ cfg.maxRetries)
+    (hb : Benign cfg bridge h last) (hc : noiseCount cfg bridge h last ≤ cfg.maxRetries)
+    (hh : IsHit cfg bridge h e g) :
+    outer cfg bridge h r [] (timedOutRounds segs ++ (last ++ e :: X)) n =
       ⟨.ok (pySlice Gen.Loops04.rmcpDataLo Gen.Loops04.rmcpDataHi g), [], X, n + segs.length + 1⟩ := by
   induction segs generalizing r n with
   | nil =>
     cases r with
     | zero => simp at hr
-    | succ r => simpa [timedOutRounds] using outer_seg_hit cfg hq h r last e g X n hb hc hh
+    | succ r => simpa [timedOutRounds] using outer_seg_hit cfg hq bridge h r last e g X n hb hc hh
   | cons s ss ih =>
     cases r with
     | zero => simp at hr
     | succ r =>
       have h1 := hs s List.mem_cons_self
       simp only [timedOutRounds, List.append_assoc, List.cons_append]
-      rw [outer_seg_timeout cfg hq h r s _ n h1.1 h1.2]
+      rw [outer_seg_timeout cfg hq bridge h r s _ n h1.1 h1.2]
       rw [ih r (n + 1) (by simpa using hr) (fun x hx => hs x (List.mem_cons_of_mem _ hx))]
       simp only [List.length_cons]
       congr 1
       omega
 
-/-! ### `_q` stays empty in the intended variant -/
+/-! ### `_q` stays empty once nothing is put back (since fixes/C04-1.diff) -/
 
 def Next.queue : Next → List Frame
   | .counted _ _ q _ => q
   | .timeout _ => []
   | .abort _ q _ => q
 
-theorem nextSock_queue (cfg : Cfg) (h : Hdr) (evs : List RxEvent) :
-    (nextSock cfg h evs).queue = [] := by
+theorem nextSock_queue (cfg : Cfg) (bridge : Option Hdr) (h : Hdr) (evs : List RxEvent) :
+    (nextSock cfg bridge h evs).queue = [] := by
   induction evs with
   | nil => simp [nextSock, Next.queue]
   | cons ev rest ih =>
@@ -172,13 +176,13 @@ def Inner.queue : Inner → List Frame
   | .timeout _ => []
   | .abort _ q _ => q
 
-theorem inner_queue_empty (cfg : Cfg) (hq : cfg.requeue = false) (h : Hdr) (b : Nat) (evs : List RxEvent) :
-    (inner cfg h b [] evs).queue = [] := by
+theorem inner_queue_empty (cfg : Cfg) (hq : cfg.requeue = false) (bridge : Option Hdr) (h : Hdr) (b : Nat)
+    (evs : List RxEvent) : (inner cfg bridge h b [] evs).queue = [] := by
   induction b generalizing evs with
   | zero => simp [inner, Inner.queue]
   | succ b ih =>
     simp only [inner, nextQ]
-    have hs := nextSock_queue cfg h evs
+    have hs := nextSock_queue cfg bridge h evs
     split
     · rename_i g q' evs' heq
       rw [heq] at hs
@@ -193,13 +197,13 @@ theorem inner_queue_empty (cfg : Cfg) (hq : cfg.requeue = false) (h : Hdr) (b : 
       rw [heq] at hs
       simpa [Inner.queue, Next.queue] using hs
 
-theorem outer_queue_empty (cfg : Cfg) (hq : cfg.requeue = false) (h : Hdr) (r : Nat) (evs : List RxEvent)
-    (n : Nat) : (outer cfg h r [] evs n).queue = [] := by
+theorem outer_queue_empty (cfg : Cfg) (hq : cfg.requeue = false) (bridge : Option Hdr) (h : Hdr) (r : Nat)
+    (evs : List RxEvent) (n : Nat) : (outer cfg bridge h r [] evs n).queue = [] := by
   induction r generalizing evs n with
   | zero => simp [outer]
   | succ r ih =>
     simp only [outer]
-    have hi := inner_queue_empty cfg hq h (innerBudget cfg) evs
+    have hi := inner_queue_empty cfg hq bridge h (innerBudget cfg) evs
     split
     · rename_i g q' evs' heq
       rw [heq] at hi
@@ -212,63 +216,79 @@ theorem outer_queue_empty (cfg : Cfg) (hq : cfg.requeue = false) (h : Hdr) (r : 
       simpa [Inner.queue] using hi
     · exact ih _ _
 
-/-! ### the specification's vocabulary implies the model's -/
+/-! ### the specification's vocabulary implies the model's (repaired recognition) -/
 
-theorem unrelated_kind (cfg : Cfg) (h : Hdr) (hn : h.netfn % 2 = 0) (f : Frame)
-    (hu : Unrelated cfg.checkSeq h.rid f) : evKind cfg h (.frame f) = some true := by
-  obtain ⟨hl, h5, hnr⟩ := hu
+/-- the model's `bridge_header` for the specification's "bridged with sequence number s" -/
+def bridgeOfSeq (bridged : Option Nat) : Option Hdr := bridged.map bridgeHdr
+
+theorem bridgeHdr_rid (s : Nat) : (bridgeHdr s).rid = bridgeId s := rfl
+
+theorem bridgeHdr_even (s : Nat) : (bridgeHdr s).netfn % 2 = 0 := by
+  simp [bridgeHdr, Gen.Loops04.netfnApp]
+
+theorem rxFilter_false_of {cs : Bool} {h : Hdr} {f : Frame} (hn : h.netfn % 2 = 0) (hl : 6 ≤ f.length)
+    (hnr : ¬ isReplyTo cs h.rid f) : rxFilter cs h f = false := by
+  cases hx : rxFilter cs h f with
+  | false => rfl
+  | true => exact absurd ((rxFilter_iff _ h f hn hl).1 hx) hnr
+
+/-- a frame that is not a response to this transaction's own Send Message goes to the reply filter as it is -/
+theorem classify_not_own (cs : Bool) (bridged : Option Nat) (h : Hdr) (f : Frame) (hl : 6 ≤ f.length)
+    (hno : ¬ OwnSendMsgRsp cs bridged f) :
+    classify false cs (bridgeOfSeq bridged) h f = plain cs h f := by
+  unfold classify
+  simp only [Bool.false_eq_true, if_false]
+  cases bridged with
+  | none => rfl
+  | some s =>
+    have hf : rxFilter cs (bridgeHdr s) f = false :=
+      rxFilter_false_of (bridgeHdr_even s) hl (by rw [bridgeHdr_rid]; exact hno)
+    simp [bridgeOfSeq, show ¬ f.length < 6 by omega, hf]
+
+theorem unrelated_kind (cfg : Cfg) (hco : cfg.cmdOnly = false) (bridged : Option Nat) (h : Hdr)
+    (hn : h.netfn % 2 = 0) (f : Frame) (hu : Unrelated cfg.checkSeq h.rid bridged f) :
+    evKind cfg (bridgeOfSeq bridged) h (.frame f) = some true := by
+  obtain ⟨hl, hnr, hno⟩ := hu
   have hne : f.isEmpty = false := by
     cases f with
     | nil => simp at hl
     | cons => rfl
-  have hf : rxFilter cfg.checkSeq h f = false := by
-    cases hx : rxFilter cfg.checkSeq h f with
-    | false => rfl
-    | true => exact absurd ((rxFilter_iff _ h f hn hl).1 hx) hnr
-  have h5' : ¬ f.getD Gen.Loops04.rmcpBridgeIdx 0 = Gen.Loops04.cmdSendMessage := h5
-  have hl' : ¬ f.length ≤ Gen.Loops04.rmcpBridgeIdx := by
-    show ¬ f.length ≤ 5
-    omega
-  have hl'' : ¬ f.length < 6 := by omega
-  have hcls : classify cfg.checkSeq h f = .noise f := by
-    unfold classify
-    rw [if_neg hl', if_neg h5', if_neg hl'', hf]
-    simp
+  have hcls : classify cfg.cmdOnly cfg.checkSeq (bridgeOfSeq bridged) h f = .noise f := by
+    rw [hco, classify_not_own _ _ _ _ hl hno]
+    simp [plain, show ¬ f.length < 6 by omega, rxFilter_false_of hn hl hnr]
   simp [evKind, recvIpmi, hne, hcls]
 
-theorem bareAck_kind (cfg : Cfg) (h : Hdr) (f : Frame) (ha : BareAck f) :
-    evKind cfg h (.frame f) = some false := by
-  obtain ⟨hl, h5, h6⟩ := ha
-  match f, hl with
-  | [a, b, c, d, e, x, y, z], _ =>
-    simp only [byte, List.getD] at h5 h6
-    simp at h5 h6
-    subst h5 h6
-    simp [evKind, recvIpmi, classify, peelN, Gen.Loops04.rmcpBridgeIdx, Gen.Loops04.cmdSendMessage,
-      cmdSendMessage]
+theorem bareAck_kind (cfg : Cfg) (hco : cfg.cmdOnly = false) (bridged : Option Nat) (h : Hdr) (f : Frame)
+    (ha : BareAck cfg.checkSeq bridged f) : evKind cfg (bridgeOfSeq bridged) h (.frame f) = some false := by
+  obtain ⟨hl, h6, hown⟩ := ha
+  cases bridged with
+  | none => exact absurd hown (by simp [OwnSendMsgRsp])
+  | some s =>
+    have hr : isReplyTo cfg.checkSeq (bridgeId s) f := hown
+    have hflt : rxFilter cfg.checkSeq (bridgeHdr s) f = true :=
+      (rxFilter_iff _ _ f (bridgeHdr_even s) (by omega)).2 (by rw [bridgeHdr_rid]; exact hr)
+    have hint : IntactSendMsgRsp f := ⟨by omega, hr.2.1, hr.2.2.1, hr.2.2.2.1, hr.2.2.2.2.1⟩
+    have hrec := isSendMsgRsp_of_intact false hint
+    match f, hl with
+    | [a, b, c, d, e, x, y, z], _ =>
+      simp only [byte, List.getD] at h6
+      simp at h6
+      subst h6
+      have hpeel : peelN false 8 [a, b, c, d, e, x, 0, z] = .ok [] := by
+        simp [peelN, hrec]
+      simp [evKind, recvIpmi, classify, hco, bridgeOfSeq, hflt, hpeel, afterPeel]
 
-theorem reply_isHit (cfg : Cfg) (h : Hdr) (hn : h.netfn % 2 = 0) (hc : h.cmd ≠ cmdSendMessage) (f : Frame)
-    (hr : isReplyTo cfg.checkSeq h.rid f) : IsHit cfg h (.frame f) f := by
+theorem reply_isHit (cfg : Cfg) (hco : cfg.cmdOnly = false) (bridged : Option Nat) (h : Hdr)
+    (hn : h.netfn % 2 = 0) (f : Frame) (hr : isReplyTo cfg.checkSeq h.rid f)
+    (hno : ¬ OwnSendMsgRsp cfg.checkSeq bridged f) : IsHit cfg (bridgeOfSeq bridged) h (.frame f) f := by
   have hl : 6 ≤ f.length := hr.1
   have hne : f.isEmpty = false := by
     cases f with
     | nil => simp at hl
     | cons => rfl
-  have h5 : ¬ f.getD Gen.Loops04.rmcpBridgeIdx 0 = Gen.Loops04.cmdSendMessage := by
-    have : byte f 5 = h.cmd := hr.2.2.2.2.1
-    intro hx
-    apply hc
-    rw [← this]
-    exact hx
-  have hl' : ¬ f.length ≤ Gen.Loops04.rmcpBridgeIdx := by
-    show ¬ f.length ≤ 5
-    omega
-  have hl'' : ¬ f.length < 6 := by omega
-  have hf := (rxFilter_iff _ h f hn hl).2 hr
   refine ⟨f, by simp [recvIpmi, hne], ?_⟩
-  unfold classify
-  rw [if_neg hl', if_neg h5, if_neg hl'', hf]
-  simp
+  rw [hco, classify_not_own _ _ _ _ hl hno]
+  simp [plain, show ¬ f.length < 6 by omega, (rxFilter_iff _ h f hn hl).2 hr]
 
 /-! ### ipmb-dev / Aardvark: progress -/
 
@@ -374,17 +394,19 @@ theorem i2cAttempts_rounds (cfg : I2cCfg) (h : Hdr) (hn : h.netfn % 2 = 0)
         congr 1
         omega
 
-theorem noise_benign (cfg : Cfg) (h : Hdr) (hn : h.netfn % 2 = 0) (noise : List Frame)
-    (hno : ∀ f ∈ noise, Unrelated cfg.checkSeq h.rid f ∨ BareAck f) :
-    Benign cfg h (noise.map .frame) ∧
-    noiseCount cfg h (noise.map .frame) = (noise.filter fun f => !decide (BareAck f)).length := by
+theorem noise_benign (cfg : Cfg) (hco : cfg.cmdOnly = false) (bridged : Option Nat) (h : Hdr)
+    (hn : h.netfn % 2 = 0) (noise : List Frame)
+    (hno : ∀ f ∈ noise, Unrelated cfg.checkSeq h.rid bridged f ∨ BareAck cfg.checkSeq bridged f) :
+    Benign cfg (bridgeOfSeq bridged) h (noise.map .frame) ∧
+    noiseCount cfg (bridgeOfSeq bridged) h (noise.map .frame) =
+      (noise.filter fun f => !decide (BareAck cfg.checkSeq bridged f)).length := by
   induction noise with
   | nil => exact ⟨(fun _ hx => by cases hx), rfl⟩
   | cons f l ih =>
     obtain ⟨hb, hc⟩ := ih (fun x hx => hno x (List.mem_cons_of_mem _ hx))
     rcases hno f List.mem_cons_self with hu | ha
-    · have hk := unrelated_kind cfg h hn f hu
-      have hna : ¬ BareAck f := fun ha => hu.2.1 ha.2.1
+    · have hk := unrelated_kind cfg hco bridged h hn f hu
+      have hna : ¬ BareAck cfg.checkSeq bridged f := fun ha => hu.2.2 ha.2.2
       refine ⟨fun e he => ?_, ?_⟩
       · simp only [List.map_cons, List.mem_cons] at he
         rcases he with he | he
@@ -392,7 +414,7 @@ theorem noise_benign (cfg : Cfg) (h : Hdr) (hn : h.netfn % 2 = 0) (noise : List 
         · exact hb e he
       · simp [noiseCount, hk, hc, hna]
         omega
-    · have hk := bareAck_kind cfg h f ha
+    · have hk := bareAck_kind cfg hco bridged h f ha
       refine ⟨fun e he => ?_, ?_⟩
       · simp only [List.map_cons, List.mem_cons] at he
         rcases he with he | he
